@@ -13,7 +13,7 @@ MP, MPS, TREE, GS = Q.MP, Q.MPS, Q.TREE, "renormalizer/mps/gs.py"
 SITES = {
     "MatrixProduct.compress": ("delegate", "_update_ms"),
     "MatrixProduct._push_cano": ("delegate", "_update_ms"),
-    "MatrixProduct._update_mps": ("select", None),
+    "MatrixProduct._update_mps": ("run", None),      # abstract run (chain_rules.update_mps_rule)
     "Mps._evolve_tdvp_ps": ("function", None),
     "Mps._evolve_tdvp_mu_vmf": ("function", None),
     "Mps._evolve_tdvp_mu_cmf": ("function", None),
@@ -155,6 +155,8 @@ def run(chk):
     for qual, (mode, callee) in SITES.items():
         if qual not in by_fn:
             raise AnalysisError(f"decomposition site {qual} vanished")
+        if mode == "run":
+            continue
         for k, s in enumerate(by_fn[qual]):
             fi = s.fi
             r = s.roles()
@@ -204,8 +206,6 @@ def run(chk):
                     ts = [t for t in tensor_stores(fi.node) if names_in(t.value) & alias_closure(fi.node, {a.targets[0].elts[0].id for a in sel})]
                     chk.ob("label-co-update", f"{qual}: kept labels stored", len(good) >= 1 and len(ts) >= 1, fi.where, [norm_stmt(l, 60) for l in good], "X.qn[...] = msqn", line=fi.node.lineno,
                            detail=f"{qual} stores the selected vectors but never the selected labels")
-                    if qual == "MatrixProduct._update_mps":
-                        leaf_rule(chk, fi, labnames)
                 continue
             # mode == function
             fam = {"u": alias_closure(fi.node, {r["u"]}), "v": alias_closure(fi.node, {r["v"]}) if r["v"] else set()}
@@ -279,6 +279,10 @@ def run(chk):
             a = [unparse(x).replace(" ", "") for x in m.value.args]
             chk.ob("fresh-labels", f"{qual}: mask", a == [qnmat, f"{gobj}.qntot"], fi.where, a, [qnmat, f"{gobj}.qntot"], line=m.lineno,
                    detail="the sector mask must be built from the block labels just computed and the same object's total charge")
+    # ---- the renormalised-basis update itself: abstract run on abstract tensors (vectors, values, labels of one factor selected together; kept labels stored on the bond
+    #      of the new index, the others untouched; label centre follows the tensor centre; every direction, one- and two-site, chain ends, state-averaged)
+    from .chain_rules import update_mps_rule
+    update_mps_rule(chk, src, {"labels": "label-co-update", "store": "label-co-update"})
     # ---- qn-carry (shared implementation with C15)
     for rel in (C15.OP, C15.MODEL, C15.SYMMPO, C15.HQC):
         for fi in src.funcs_in(rel):
@@ -300,58 +304,6 @@ def consistent_family(fn, args, sites):
                         if src_names[0] == r[side[0]] and src_names[2] == r[side[1]] and src_names[1] in r["s"]:
                             return True
     return False
-
-
-def leaf_rule(chk, fi, labnames):
-    """_update_mps step 2: every leaf branch that installs the kept vectors on a site also stores their labels, except the two chain-end leaves"""
-    EXC = {
-        "self[cidx[0]] = tensordot(self[cidx[0]], compms, axes=1)": "right end of the chain: no bond to the right, the complement is absorbed into the same site",
-        "self[cidx[0]] = tensordot(compms, self[cidx[0]], axes=1)": "left end of the chain: no bond to the left",
-    }
-    chk.table("update_mps_leaf_exceptions", EXC)
-    leaves = []
-
-    def rec(body):
-        has_branch = False
-        for s in body:
-            if isinstance(s, ast.If) and any(isinstance(x, ast.Assign) and isinstance(x.targets[0], ast.Subscript) and unparse(x.targets[0].value) == "self" for x in ast.walk(s)):
-                has_branch = True
-                rec(s.body)
-                rec(s.orelse)
-        own = [s for s in body if isinstance(s, ast.Assign) and isinstance(s.targets[0], ast.Subscript) and unparse(s.targets[0].value) == "self"]
-        if own and not has_branch:
-            leaves.append(body)
-        elif own and has_branch:
-            leaves.append([s for s in body if not isinstance(s, ast.If)])
-
-    step2 = [s for s in fi.node.body if isinstance(s, ast.If) and "len(cidx)" in unparse(s.test)]
-    if len(step2) != 1:
-        raise AnalysisError(f"{fi.where}: step 2 (`if len(cidx) == 1`) not found")
-    rec(step2[0].body)
-    rec(step2[0].orelse)
-    n = 0
-    for leaf in leaves:
-        stores = [s for s in leaf if isinstance(s, ast.Assign) and isinstance(s.targets[0], ast.Subscript) and unparse(s.targets[0].value) == "self"]
-        if not stores:
-            continue
-        labs = [s for s in leaf if isinstance(s, ast.Assign) and "qn" in unparse(s.targets[0]) and names_in(s.value) & labnames]
-        txt = [norm_stmt(s, 100) for s in stores]
-        exempt = any(t in EXC for t in txt)
-        # the 2-site leaves store labels one level up (common tail of the else branch)
-        if not labs and not exempt:
-            parent_tail = [s for s in step2[0].orelse if isinstance(s, ast.Assign) and "qn" in unparse(s.targets[0]) and names_in(s.value) & labnames]
-            in_else = any(leaf is b or any(x in b for x in leaf) for b in [st.body for st in step2[0].orelse if isinstance(st, ast.If)] + [st.orelse for st in step2[0].orelse if isinstance(st, ast.If)])
-            if in_else and parent_tail:
-                labs = parent_tail
-        if len(stores) == 1 and not labs and not exempt and unparse(stores[0].value) in ("ms",):
-            # `self[cidx[0]] = ms` at the head of the 1-site branch: its labels are stored in the nested leaves
-            continue
-        n += 1
-        chk.ob("label-co-update", f"_update_mps leaf: {txt[0][:70]}", bool(labs) or exempt, fi.where, [norm_stmt(l, 60) for l in labs] or ("exempt: chain end" if exempt else "no label store"),
-               "self.qn[...] = msqn in the same branch", line=stores[0].lineno,
-               detail="this branch of the renormalised-basis update installs new site tensors without storing the labels of the kept vectors")
-    if n < 6:
-        raise AnalysisError(f"{fi.where}: only {n} update leaves recognised (expected 6)")
 
 
 META = {
